@@ -9,8 +9,12 @@ wt = f"/tmp/seed/{tag}"
 patch = f"{wt}/out/patch{n}.diff"
 name = f"{pid}-{tag.lower()}-{n}" if tag != pid else f"{pid}-{n}"
 env = dict(os.environ, CARGO_TARGET_DIR=f"{wt}/target")
+import fcntl
+wl = open(f"/tmp/seed/{tag}.lock", "w")
+fcntl.flock(wl, fcntl.LOCK_EX)   # one user of a seed worktree at a time
 v = subprocess.run(["/verif/tools/seed_verify.sh", tag, patch, crates, demo], capture_output=True, text=True, env=env)
-print(v.stdout.strip(), v.stderr.strip()[-300:])
+print(v.stdout.strip(), v.stderr.strip()[-300:], flush=True)
+fcntl.flock(wl, fcntl.LOCK_UN)
 try:
     ver = json.loads(v.stdout.strip().splitlines()[-1])
 except Exception:
@@ -24,10 +28,16 @@ if confirmed:
     if not slot:
         slot = f"seed-{pid}"
         for f in glob.glob("/verif/harness/chk-*/checks.json"):
-            t = json.load(open(f))
-            if pid in t:
-                slot = "seed-" + t[pid]["bin"]   # one scratch slot per check binary: incremental builds across seeds
+            reg = json.load(open(f))
+            if pid in reg:
+                slot = "seed-" + reg[pid]["bin"]   # one scratch slot per check binary: incremental builds across seeds
+    import fcntl
+    os.makedirs("/var/tmp/verif-mut", exist_ok=True)
+    lk = open(f"/var/tmp/verif-mut/{slot}.lock", "w")
+    fcntl.flock(lk, fcntl.LOCK_EX)   # one user of a scratch slot at a time
+    t = time.time()
     m = subprocess.run(["/verif/tools/mutant.sh", slot, patch, pid, "quick"], capture_output=True, text=True)
+    fcntl.flock(lk, fcntl.LOCK_UN)
     out = m.stdout
     rc = m.returncode
     vio = [l for l in out.splitlines() if l.startswith("VIOLATION")]
